@@ -1,11 +1,13 @@
 -------------------------- MODULE GenSiblingsTrace --------------------------
 (* T-layer for C10.  One record = one file written by the real generator (event `genfile`), logged by a    *)
 (* harness FilePostProcessor (public extension point) in the order in which the real code produced them.   *)
-(*   id      record number                                                                                *)
-(*   key     the P key: (definitions location, type, hash of the DSDL source of the type and of everything  *)
-(*           it transitively refers to, target language + language options, template set, post-processor    *)
-(*           list, generate_all flags) -- a string                                                        *)
-(*   digest  sha256 of the bytes of the file (or "!exc:<type>" when generation raised)                      *)
+(*   id        record number                                                                              *)
+(*   type      full name + version of the DSDL type + hash of the DSDL source of the type and of everything it   *)
+(*             transitively refers to (the type "and the types it refers to")                                   *)
+(*   templates "builtin" or the description of the user template set                                            *)
+(*   options   directory of the scenario (location is C07's variable), target language + language options,       *)
+(*             post-processor list, generate_all flags                                                          *)
+(*   digest    sha256 of the bytes of the file (or "!exc:<type>" when generation raised)                      *)
 (*   lim     [on, obs, n, eb, ea, step, raw, kept]: LimitEmptyLines in force (on), its limit n, its counter   *)
 (*           when the first line of this file arrived (eb) and after the file (ea); with step = 1 also the   *)
 (*           run-length encoded emptiness of the raw lines (seen by a harness LinePostProcessor placed      *)
@@ -13,7 +15,7 @@
 (*   uq      [obs, ub, un, exp]: unique names handed out by the singleton when the template body started     *)
 (*           (ub, through a harness global called first in the template), at the end of the file (un), and   *)
 (*           the number of uses in the template (exp, 0 = unknown)                                          *)
-(* P decides:  sib.digest  -- two records with the same key and different digests.                         *)
+(* P decides:  sib.digest  -- two records with the same (type, templates, options) and different digests.                         *)
 (* I (drift only, never a violation): the counters follow the implementation-shaped model step by step.     *)
 EXTENDS GenSiblingsP, Json, IOUtils, TLC
 
@@ -22,13 +24,15 @@ Trace == ndJsonDeserialize(IOEnv.TRACE_FILE)
 VARIABLES l, memo
 
 WellFormed(r) ==
-    /\ {"id", "key", "digest", "lim", "uq"} \subseteq DOMAIN r
+    /\ {"id", "type", "templates", "options", "digest", "lim", "uq"} \subseteq DOMAIN r
     /\ {"on", "obs", "n", "eb", "ea", "step", "raw", "kept"} \subseteq DOMAIN r.lim
     /\ {"obs", "ub", "un", "exp"} \subseteq DOMAIN r.uq
 
+Key(r) == <<r.type, r.templates, r.options>>
+
 Verdict(r, m) ==
     IF ~WellFormed(r) THEN "harness.fields"
-    ELSE IF ~Judge(m, r.key, r.digest) THEN "sib.digest"
+    ELSE IF ~Judge(m, Key(r), r.digest) THEN "sib.digest"
     ELSE IF r.lim.on = 1 /\ r.lim.obs = 1 /\ r.lim.eb # 0 THEN "drift.limiter_carry"
     ELSE IF r.lim.on = 1 /\ r.lim.obs = 1 /\ r.lim.step = 1
             /\ LimRLE(r.lim.n, r.lim.raw, 1, r.lim.eb, 0) # [kept |-> r.lim.kept, cnt |-> r.lim.ea] THEN "drift.limiter_step"
@@ -41,7 +45,7 @@ TNext == /\ l <= Len(Trace)
          /\ LET r == Trace[l]
                 v == Verdict(r, memo)
             IN /\ IF v = "ok" THEN TRUE ELSE PrintT(<<"REJECT", r.id, v>>)
-               /\ memo' = IF WellFormed(r) THEN Learn(memo, r.key, r.digest) ELSE memo
+               /\ memo' = IF WellFormed(r) THEN Learn(memo, Key(r), r.digest) ELSE memo
          /\ l' = l + 1
 TSpec == TInit /\ [][TNext]_<<l, memo>>
 Accepted == TLCGet("stats").diameter - 1 = Len(Trace)
